@@ -393,4 +393,88 @@ theorem iso_dead_xd (k k1 : EvenSt OSt) (hf : k.fault = none) (hb : k.obs.bad = 
           EvKind.dbl, ev_read_s, ev_isog4_s, ev_eval4_s, ev_dbl_s, hsp, hsz, hle, h0, obsDbl_sp, truthy, OSt.inb, EvenSt.fail, hj, hj', hx, hx']
 end Iso
 
+
+section Iter
+variable (T : List (List Nat)) (tpep len : Nat) (oracle : Nat → Bool) (fuel : Nat) (pl : Int) (M : Nat)
+
+/-- one iteration of the main loop dies when the hand model's iteration faults -/
+theorem iter_dead (H : Hyp T tpep len M fuel) (htl : T.length + len ≤ 18446744073709551616) (hfu1 : 1 ≤ fuel)
+    (j : Nat) (hj : j < (mkParams T tpep len).eHalf) (k : EvenSt OSt) (m : St)
+    (R : Rel (mkParams T tpep len) M j k m)
+    (he : (isoStep (mkParams T tpep len) j (whileLoop (mkParams T tpep len) j m)).err ≠ none) :
+    Dead (ec_eval_even_strategy_loop1_body obs T tpep oracle fuel len pl k) := by
+  by_cases hw : (whileLoop (mkParams T tpep len) j m).err = none
+  · have R1 := while_sim T tpep len oracle fuel pl M H j hj ((mkParams T tpep len).row.length - m.strategy) fuel k m R
+      (Nat.le_refl _) (by have := H.hfur; omega) hw
+    generalize hk1 : whileF _ _ _ _ fuel k = k1 at R1
+    generalize hm1 : whileLoop (mkParams T tpep len) j m = m1 at R1 he hw
+    have hc := (isoStep_err_iff _ j _ R1.me).1 he
+    by_cases hC : idxOK m1.current (mkParams T tpep len).vla = true ∧ (m1.sp m1.current.toNat).isSome = true
+    · have hidx := hC.1
+      simp [idxOK] at hidx
+      obtain ⟨v, hv⟩ := Option.isSome_iff_exists.1 hC.2
+      have hxn : m1.xdbls m1.current.toNat = none := by
+        cases hq : m1.xdbls m1.current.toNat with
+        | none => rfl
+        | some d => exfalso; exact hc ⟨hC.1, hC.2, by simp [hq]⟩
+      have hcn : m1.current = ((m1.current.toNat : Nat) : Int) := by omega
+      exact iso_dead_xd T tpep len oracle fuel pl k k1 R.kf R.kb hk1
+        m1.current.toNat v (mkParams T tpep len).isOdd j R1.kf R1.kb
+        (by rw [R1.cu]; exact hcn) (by rw [R1.os]; omega) (by rw [R1.og, hv]) R1.od (by rw [R1.xs, R1.os])
+        (by rw [R1.xg, hxn]; rfl) R1.jj
+    · refine iso_dead_slot T tpep len oracle fuel pl k k1 R.kf R.kb hk1 (mkParams T tpep len).isOdd j R1.kf R1.kb R1.od R1.jj ?_
+      intro h
+      apply hC
+      obtain ⟨h1, h2⟩ := h
+      simp only [OSt.inb, R1.os, R1.cu, Bool.and_eq_true, decide_eq_true_eq] at h1
+      have hcn : m1.current = ((m1.current.toNat : Nat) : Int) := by omega
+      refine ⟨by simp [idxOK]; omega, ?_⟩
+      rw [R1.cu, hcn, R1.og] at h2
+      exact h2
+  · have hd := while_dead T tpep len oracle fuel pl M H htl hfu1 j hj ((mkParams T tpep len).row.length - m.strategy) fuel k m R
+      (Nat.le_refl _) hw
+    unfold ec_eval_even_strategy_loop1_body
+    rw [step_live _ k R.kf R.kb]
+    generalize hk1 : whileF _ _ _ _ fuel k = k1 at hd ⊢
+    have hs : ∀ f, EvenSt.step obs f k1 = k1 := fun f => step_dead f k1 hd
+    simp only [hs]
+    exact hd
+
+/-- the main loop dies when the hand model's `forLoop` faults -/
+theorem for_dead (H : Hyp T tpep len M fuel) (htl : T.length + len ≤ 18446744073709551616) (hfu1 : 1 ≤ fuel) :
+    ∀ (cnt f j : Nat) (k : EvenSt OSt) (m : St), Rel (mkParams T tpep len) M j k m →
+    j + cnt + 1 = (mkParams T tpep len).eHalf → cnt ≤ f → (forLoop (mkParams T tpep len) cnt j m).err ≠ none →
+    Dead (whileF (EvenSt.live obs)
+        (fun s => match ec_eval_even_strategy_loop1_cond obs T tpep oracle fuel len pl s with | .ok b => b | .error _ => true)
+        (fun s => match ec_eval_even_strategy_loop1_cond obs T tpep oracle fuel len pl s with
+          | .ok _ => ec_eval_even_strategy_loop1_body obs T tpep oracle fuel len pl s | .error f => s.fail f)
+        (fun s => s.fail .fuel) f k) := by
+  intro cnt
+  induction cnt with
+  | zero => intro f j k m R _ _ he; exact absurd R.me he
+  | succ cnt ih =>
+    intro f j k m R hj hf he
+    have h6 : (mkParams T tpep len).eHalf = len / 2 := rfl
+    have h3 := H.hmag
+    obtain ⟨f', rfl⟩ : ∃ f', f = f' + 1 := ⟨f - 1, by omega⟩
+    have hlive : EvenSt.live obs k = true := by simp [EvenSt.live, obs_ok, R.kf, R.kb]
+    have hc : (match ec_eval_even_strategy_loop1_cond obs T tpep oracle fuel len pl k with | .ok b => b | .error _ => true) = true := by
+      simp only [ec_eval_even_strategy_loop1_cond, R.eh, R.jj]
+      rw [w64]
+      simp; omega
+    rw [whileF_step _ _ _ _ _ _ (by simp [hc, hlive])]
+    have hbody : (match ec_eval_even_strategy_loop1_cond obs T tpep oracle fuel len pl k with
+        | .ok _ => ec_eval_even_strategy_loop1_body obs T tpep oracle fuel len pl k | .error f => k.fail f) =
+        ec_eval_even_strategy_loop1_body obs T tpep oracle fuel len pl k := by
+      simp [ec_eval_even_strategy_loop1_cond]
+    rw [hbody]
+    simp only [forLoop] at he
+    by_cases he1 : (isoStep (mkParams T tpep len) j (whileLoop (mkParams T tpep len) j m)).err = none
+    · have R' := iter_sim T tpep len oracle fuel pl M H j (by omega) k m R he1
+      exact ih f' (j + 1) _ _ R' (by omega) (by omega) he
+    · have hd := iter_dead T tpep len oracle fuel pl M H htl hfu1 j (by omega) k m R he1
+      rw [whileF_dead _ _ _ _ _ hd]
+      exact hd
+end Iter
+
 end SqiProofs.SkelEvenConv
